@@ -422,3 +422,47 @@ theorem decodeExtTimeSct_encode (secs frac : Nat) (h1 : secs < 2^32) (h2 : frac 
   simp only [Nat.reducePow] at h1 h2
   apply decodeExtTimeSct_core <;> simp only [Nat.reducePow] <;> omega
 end Flute.Spec
+
+namespace Flute.Alc
+open Flute Flute.Bytes Flute.Lct Flute.Fti Flute.Alc Flute.Spec Flute.Ntp
+
+theorem extOfBytes_canon (w : List Nat) : (extOfBytes w).Canon := by
+  unfold extOfBytes Ext.Canon
+  split
+  · intro h; simp only [] at h; omega
+  · intro _; rfl
+
+theorem optExt_canon (c : Prop) [Decidable c] (w : List Nat) : ∀ e ∈ optExt c w, e.Canon := by
+  intro e he
+  unfold optExt at he
+  split at he
+  · simp only [List.mem_singleton] at he; rw [he]; exact extOfBytes_canon w
+  · simp at he
+
+theorem pktHeader_canon (oti : Oti) (cci tsi : Nat) (pkt : Pkt) (rfc3926 : Bool) (ntp id : Nat) (wfti : List Nat) :
+    ∀ e ∈ (pktHeader oti cci tsi pkt rfc3926 ntp id wfti).exts, e.Canon := by
+  intro e he
+  simp only [pktHeader, List.nil_append, List.mem_append] at he
+  rcases he with ((he | he) | he) | he <;> exact optExt_canon _ _ e he
+
+theorem fdtBytes_eq_spec (version id : Nat) (hv : version < 16) :
+    fdtBytes version id = Spec.encode (extFdtDiagram version (id % 2^20)) := by
+  have hid : id % 2^20 < 2^20 := Nat.mod_lt _ (by decide)
+  unfold fdtBytes
+  rewrite [fdt_word version _ hv hid]
+  generalize id % 2^20 = i at hid
+  spec_bytes
+  rw [Nat.add_assoc]
+
+theorem cencBytes_eq_spec (cenc : Nat) : cencBytes cenc = Spec.encode (extCencDiagram cenc) := by
+  unfold cencBytes
+  spec_bytes
+
+theorem sctBytes_eq_spec (ntp : Nat) (h : ntp < 2^64) :
+    sctBytes ntp = Spec.encode (extTimeSctDiagram (ntp / 2^32) (ntp % 2^32)) := by
+  rw [sctBytes_eq ntp h]
+  simp only [Nat.reducePow] at h ⊢
+  spec_bytes
+  rewrite [Nat.div_add_mod' ntp 4294967296]
+  apply beBytes_congr; simp only [Nat.reducePow]; omega
+end Flute.Alc
